@@ -6,14 +6,18 @@
 (* source leaves the other sources' transactions untouched.                    *)
 EXTENDS Pipeline
 
-CONSTANTS MaxSteps
+CONSTANTS MaxSteps,
+          PairInit     \* start from budgets with TWO sources that have the same layout (textually identical format strings)
 
 VARIABLES b, rep, steps, probes
 vars == <<b, rep, steps, probes>>
 
 Src(name, layout) == [name |-> name, layout |-> layout, sign |-> "plain", dec |-> "dot", header |-> TRUE, status |-> "present", delim |-> "comma"]
-Init == /\ b \in {[sources |-> <<Src("Card", l)>>, rules |-> r, mode |-> "first_match", supp |-> FALSE, views |-> FALSE] :
-                    l \in {"L1", "L2", "L4"}, r \in {"none", "rules", "csv"}}
+Init == /\ b \in IF PairInit
+                  THEN {[sources |-> <<Src("Card", l), Src("Bank", l)>>, rules |-> "rules", mode |-> "first_match", supp |-> FALSE, views |-> FALSE, xform |-> FALSE] :
+                          l \in {"L1", "L2", "L4"}}
+                  ELSE {[sources |-> <<Src("Card", l)>>, rules |-> r, mode |-> "first_match", supp |-> FALSE, views |-> FALSE, xform |-> FALSE] :
+                          l \in {"L1", "L2", "L4"}, r \in {"none", "rules", "csv"}}
         /\ rep = Report(b) /\ steps = 0 /\ probes = [k \in 1..Len(Probes) |-> Explain(b, Probes[k])]
 
 Set(nb) == /\ steps < MaxSteps /\ nb # b /\ b' = nb /\ rep' = Report(nb) /\ steps' = steps + 1
@@ -32,6 +36,7 @@ ChangeBudget ==
   \/ \E v \in {"first_match", "most_specific"} : Set([b EXCEPT !.mode = v])
   \/ \E v \in BOOLEAN : Set([b EXCEPT !.supp = v])
   \/ \E v \in BOOLEAN : Set([b EXCEPT !.views = v])
+  \/ \E v \in BOOLEAN : Set([b EXCEPT !.xform = v])
   \/ (Len(b.sources) = 1 /\ \E l \in {"L1", "L2", "L4"} : Set([b EXCEPT !.sources = Append(@, Src("Bank", l))]))
 Next == ChangeSource \/ ChangeBudget
 Spec == Init /\ [][Next]_vars
@@ -40,7 +45,7 @@ Spec == Init /\ [][Next]_vars
 OtherSourcesUntouched ==
   [][\A i \in 1..Len(b.sources) :
         (Len(b'.sources) = Len(b.sources) /\ b'.sources[i] # b.sources[i]
-           /\ b'.rules = b.rules /\ b'.mode = b.mode /\ b'.supp = b.supp) =>
+           /\ b'.rules = b.rules /\ b'.mode = b.mode /\ b'.supp = b.supp /\ b'.xform = b.xform) =>
         SelectSeq(rep'.txns, LAMBDA t : t.src # b.sources[i].name) = SelectSeq(rep.txns, LAMBDA t : t.src # b.sources[i].name)]_vars
 Inv_MissingIsolated == \A i \in 1..Len(b.sources) : MissingIsolated(b, i)
 Inv_SupplementalNeverCounted == SupplementalNeverCounted(b)
